@@ -23,9 +23,10 @@ def obligations(tier):
          'bounds': 'all messages of 1 byte', 'functions': ['isohybrid.crc32']},
     ]
     H = 'vf.props.C12_h'
-    geos = [(64, 32, 1, 2000, 8), (64, 32, 523264, 526336, 8), (255, 63, 1, 31000, 100), (1, 1, 1, 3, 2), (256, 63, 1, 32000, 8)]
+    # image sizes start at 18 sectors (system area + PVD + terminator): smaller 'images' with a partition offset beyond their end are not images
+    geos = [(64, 32, 18, 2000, 8), (64, 32, 523264, 526336, 8), (255, 63, 18, 31000, 60), (1, 1, 18, 22, 2), (256, 63, 18, 32000, 8)]
     if tier != 'quick':
-        geos += [(64, 32, 1, 1 << 20, 64), (1, 63, 1, 40000, 70), (255, 63, 1, 1 << 22, 8), (2, 8, 1, 200, 20)]
+        geos += [(1, 63, 18, 3000, 20), (2, 8, 18, 200, 4), (255, 63, 31000, 100000, 8), (32, 63, 18, 5000, 8)]
     for (hd, sc, n0, n1, po) in geos:
         obs.append({'name': 'C12.a/mbr/h%d_s%d_n%d-%d' % (hd, sc, n0, n1), 'engine': 'chx', 'module': H, 'func': 'mbr',
                     'params': {'heads': hd, 'sectors': sc, 'nmin': n0, 'nmax': n1, 'pomax': po}, 'cond_timeout': 1200, 'path_timeout': 200,
